@@ -16,6 +16,9 @@
      exit   how the caller leaves a session whose last turn has a tail message: "close" | "cancel" | "with" (__exit__);
             "close" everywhere else
      tr     "pipe" | "http"
+     via    the entry point the method logs through: "ctx" (CallContext.client_log / emit_client_log) | "out" (inside a
+            process() step: OutputCollector.client_log / emit_client_log_message) -- crossed with every level, extra class,
+            step emission point and exit, one text class
      route  which server branch writes the step's output (_flush_collector / the HTTP producer turn):
             "inline" | "shm" (socket transport with a shared-memory side channel; the data batch is large enough to
             travel through the segment, log batches stay on the pipe) | "ext" (an external-storage configuration is
@@ -33,8 +36,11 @@ Tails == {"tail_prod", "tail_exch"}
 Exits == {"close", "cancel", "with"}
 Routes == {"inline", "shm", "ext", "buf"}
 ProdAts == {"init", "init_hdr", "pre_prod", "post_prod", "tail_prod"}
-Cases == {c \in [lvl : Lvls, txt : Txts, extra : Extras, at : Ats, tr : {"pipe", "http"}, exit : Exits, route : Routes] :
+StepAts == {"pre_prod", "post_prod", "pre_exch", "post_exch", "tail_prod", "tail_exch"}
+Cases == {c \in [lvl : Lvls, txt : Txts, extra : Extras, at : Ats, tr : {"pipe", "http"}, exit : Exits, route : Routes,
+                 via : {"ctx", "out"}] :
              /\ c.at \notin Tails => c.exit = "close"
+             /\ c.via = "out" => (c.at \in StepAts /\ c.txt = "ascii" /\ c.route = "inline")
              /\ c.route # "inline" => (c.lvl = "INFO" /\ c.txt = "ascii")
              /\ c.route = "shm" => c.tr = "pipe"
              /\ c.route = "buf" => (c.tr = "http" /\ c.at \in ProdAts)}
